@@ -25,7 +25,7 @@ import z3
 
 from . import core
 from .core import Unsupported
-from .values import (SxFloat, SxInt, SxBool, SxBytes, SxStr, SxChar, Numeral, WordItem, is_sym, any_sym, mkbool, has_sym, eq_term,
+from .values import (SxByteArray, SxFloat, SxInt, SxBool, SxBytes, SxStr, SxChar, Numeral, WordItem, is_sym, any_sym, mkbool, has_sym, eq_term,
                      z3bool, sym_ite, concretize_small, _mkstr, _mkbytes, _char_in, _items,
                      HEXLOW, HEXUP, str_of)
 
@@ -167,7 +167,9 @@ def sx_isinstance(x, t):
             return True
         if tt is bool and isinstance(x, SxBool):
             return True
-        if tt is bytes and isinstance(x, SxBytes):
+        if tt is bytes and isinstance(x, SxBytes) and not isinstance(x, SxByteArray):
+            return True
+        if tt is bytearray and isinstance(x, SxByteArray):
             return True
         if tt is str and (isinstance(x, (SxStr, SxChar)) or getattr(x, "_sx_strlike", False)):
             return True
@@ -186,6 +188,8 @@ def sx_type(x, *a):
         return int
     if isinstance(x, SxBool):
         return bool
+    if isinstance(x, SxByteArray):
+        return bytearray
     if isinstance(x, SxBytes):
         return bytes
     if isinstance(x, (SxStr, SxChar)) or getattr(x, "_sx_strlike", False):
@@ -306,7 +310,24 @@ def sx_divmod(a, b):
     return divmod(a, b)
 
 
+def sx_bytearray(x=b"", *a):
+    if isinstance(x, SxInt):
+        x = concretize_small(x, 0, 1 << 16)
+    if isinstance(x, int) and not isinstance(x, bool):
+        return SxByteArray([0] * x)
+    if isinstance(x, SxBytes):
+        return SxByteArray(x.bs)
+    if isinstance(x, (SxStr, SxChar, str)):
+        if not a:
+            raise TypeError("string argument without an encoding")
+        e = str_of(x).encode(*a) if not isinstance(x, str) else x.encode(*a)
+        return SxByteArray(list(e.bs if isinstance(e, SxBytes) else e))
+    return SxByteArray(list(bytearray(x, *a) if not isinstance(x, (list, tuple)) else x))
+
+
 def sx_bytes(x=b"", *a):
+    if isinstance(x, SxByteArray):
+        return _mkbytes(x.bs)
     if isinstance(x, SxBytes):
         return x
     if isinstance(x, SxInt):
@@ -801,6 +822,7 @@ def _install_builtin_intercepts():
     register(io.BytesIO, sx_bytesio)
     register(divmod, sx_divmod)
     register(bytes, sx_bytes)
+    register(bytearray, sx_bytearray)
     register(range, sx_range)
     register(int, sx_int)
     register(str, sx_str)
